@@ -53,6 +53,10 @@ type Case struct {
 	AddErr []bool `json:"add_err"`
 	Obs    []Obs  `json:"obs"`
 	Engine bool   `json:"engine,omitempty"` // executed through the whole engine (order not forced)
+	// the flows were WRITTEN as flow files and read back by the production YAML
+	// loader (streamconfig.GetFlows) before AddFlow (tree level; engine cases are
+	// always loaded that way).  Such cases are evaluated by Model.run_case_loaded.
+	Loader bool `json:"loader,omitempty"`
 	// results that read differently after the later transactions of the batch were looked up
 	Mutated []Mutated `json:"mutated,omitempty"`
 }
